@@ -57,7 +57,11 @@ RULE = ('case = one call sequence (find with sort/skip/limit arguments followed 
         'sort keys are drawn from every kind of value bson_compare orders (null, numbers incl. '
         'non-finite and beyond 2^53, strings, embedded documents, arrays, binary data, uuid, '
         'ObjectId, booleans, dates, regular expressions), compared by _id sequence with the '
-        'reference BSON order of harness/c11_order.py')
+        'reference BSON order of harness/c11_order.py; many_ties_collections: the same kinds of '
+        'case over collections of 8-40 documents with 1-4 distinct values per field (most '
+        'documents tie under the first key), with the leading window of every small size taken '
+        'right after the sort through $sort + $limit, sort().limit() and slices, windows '
+        'anywhere, and pipelines of several sorts and cuts')
 
 ASSUMPTIONS = [
     'outside F (model answers "unmodelled"): sort keys reaching values nested deeper than a flat '
@@ -99,6 +103,9 @@ FIELDS = ['a', 'b', 'c']
 # generators
 
 class G(object):
+    SIZES = [0, 1, 2, 3, 3, 4, 4, 5, 5, 6, 7, 8]        # number of documents
+    ALPHA_SIZES = [1, 2, 2, 3, 3, 4, 5]                 # distinct values drawn per field
+
     def __init__(self, rng):
         self.r = rng
         self.oids = wire.Oids()
@@ -121,11 +128,11 @@ class G(object):
 
     def docs(self):
         r = self.r
-        n = r.choice([0, 1, 2, 3, 3, 4, 4, 5, 5, 6, 7, 8])
+        n = r.choice(self.SIZES)
         profile = 'D' if r.random() < 0.72 else 'F'
         alpha = {}
         for f in FIELDS:
-            k = r.choice([1, 2, 2, 3, 3, 4, 5])
+            k = r.choice(self.ALPHA_SIZES)
             vals = [copy.deepcopy(r.choice(D_ALPHABET)) for _ in range(k)]
             if r.random() < 0.2:
                 # supplied ObjectIds are inside D: ordered by value, between arrays and booleans
@@ -316,6 +323,8 @@ class WG(G):
     """collections whose sort keys are drawn from EVERY kind of value the comparison knows
     (profile 'W'): per field either one kind (the rule inside the kind decides), two kinds, or
     all of them; arrays and embedded documents hold items of every kind as well"""
+    SIZES = [2, 3, 3, 4, 4, 5, 5, 6, 7, 8]
+    ALPHA_SIZES = [2, 3, 3, 4, 5, 6]
 
     def w_scalar(self, kind):
         r = self.r
@@ -357,11 +366,11 @@ class WG(G):
 
     def docs(self):
         r = self.r
-        n = r.choice([2, 3, 3, 4, 4, 5, 5, 6, 7, 8])
+        n = r.choice(self.SIZES)
         alpha = {}
         for f in FIELDS:
             kinds = self.w_kinds()
-            alpha[f] = [self.w_value(kinds) for _ in range(r.choice([2, 3, 3, 4, 5, 6]))]
+            alpha[f] = [self.w_value(kinds) for _ in range(r.choice(self.ALPHA_SIZES))]
         pmiss = r.choice([0.0, 0.1, 0.25])
         ids = self.draw_ids(n)
         out = []
@@ -436,6 +445,154 @@ def gen_scenario(rng, gcls=None):
         if st:
             cases.append(('agg', st))
     return {'docs': docs, 'oids': g.oids, 'profile': profile, 'cases': cases}
+
+
+# ------------------------------------------------------------------------------------------
+# larger collections in which MANY documents tie under the sort keys.  The rules speak of any
+# number of documents: "documents that tie keep their natural order" and "skip / limit take a
+# contiguous window of the sorted sequence" must hold when the window is a small part of a long
+# sequence full of ties (where an implementation may take another road than one full sort:
+# top-k selection, partial sorts, early cuts), for the $sort stage and for the cursor alike.
+
+class ManyTies(object):
+    """mixin over G / WG: 8-40 documents, 1-4 distinct values per field (so most documents tie
+    under the first key and the later keys or natural order decide), small numbers for skip /
+    limit / slices next to numbers around the size of the collection"""
+    SIZES = [8, 8, 9, 10, 11, 12, 12, 13, 14, 16, 16, 17, 20, 20, 24, 25, 31, 32, 40]
+    ALPHA_SIZES = [1, 2, 2, 2, 3, 3, 4]
+
+    def draw_ids(self, n):
+        """_ids in the order of insertion: 0..n-1, the same numbers in an order that is not the
+        order of their values, or numbers and strings mixed"""
+        r = self.r
+        x = r.random()
+        if x < 0.6:
+            return list(range(n))
+        ids = list(range(n)) if x < 0.85 else \
+            [i if r.random() < 0.6 else 'k%02d' % i for i in range(n)]
+        r.shuffle(ids)
+        return ids
+
+    def small(self, n):
+        """a window size: every small number, now and then one around a quarter / a half / the
+        whole of the collection"""
+        r = self.r
+        if r.random() < 0.75:
+            return r.randint(1, 6)
+        return max(1, r.choice([n // 4 - 1, n // 4, n // 4 + 1, n // 3, n // 2, n - 1, n, n + 2]))
+
+    def num(self, n, neg=0.0):
+        r = self.r
+        if r.random() < neg:
+            return -r.randint(1, 4)
+        if r.random() < 0.7:
+            return r.randint(0, 6)
+        return r.randint(0, n + 2)
+
+    def plain_sort(self, profile):
+        """a sort specification over field names (1-3 keys, no `$` key)"""
+        for _ in range(8):
+            spec = self.sort_spec(profile, allow_none=False)
+            if spec and not any(k.startswith('$') for k, _ in spec):
+                return spec
+        return [['a', 1], ['b', -1]]
+
+    def stages(self, n, profile):
+        """a pipeline of $sort / $skip / $limit stages in which a $sort is followed by $limit
+        directly, after a $skip, by two of them, or by another $sort"""
+        r = self.r
+        st = []
+        if r.random() < 0.15:
+            st.append([r.choice(['skip', 'limit']), self.small(n)])
+        for _ in range(r.choice([1, 1, 1, 2])):
+            st.append(['sort', dedup_keys(self.plain_sort(profile))])
+            x = r.random()
+            if x < 0.55:
+                st.append(['limit', self.small(n)])
+            elif x < 0.7:
+                st += [['skip', self.num(n)], ['limit', self.small(n)]]
+            elif x < 0.8:
+                st += [['limit', self.small(n)], ['skip', self.num(n)]]
+            elif x < 0.9:
+                st += [['limit', self.small(n)], ['limit', self.small(n)]]
+            elif x < 0.95:
+                st.append(['limit', self.num(n, 0.3)])      # 0 and negative numbers: rejected
+        for s in st:
+            if s[0] != 'sort' and r.random() < 0.1:
+                s[1] = float(s[1])                           # a double that holds a whole number
+        return st
+
+
+class BG(ManyTies, G):
+    pass
+
+
+class BWG(ManyTies, WG):
+    pass
+
+
+def gen_big_scenario(rng, gcls=BG):
+    g = gcls(rng)
+    docs, profile = g.docs()
+    n = len(docs)
+    filt = g.filter(docs) if rng.random() < 0.5 else {}
+    cases = []
+    # a consistent family: the same settings through every entry point
+    spec = g.plain_sort(profile)
+    s = g.num(n) if rng.random() < 0.5 else 0
+    l = g.small(n)
+    cases.append(('find', filt, spec, s, l, [], None))
+    cases.append(('find', filt, None, 0, 0, [['sortl', spec], ['skip', s], ['limit', l]], None))
+    cases.append(('find', filt, None, 0, 0, [['sortl', spec], ['limit', -l], ['skip', s]], None))
+    cases.append(('find', filt, spec, 0, 0, [['slice', s, s + l]], None))
+    if filt == {} and dedup_keys(spec) == spec:
+        cases.append(('agg', [['sort', spec]] + ([['skip', s]] if s else []) + [['limit', l]]))
+    cases.append(('count', filt, s, l))
+    # the leading window of every small size, through the stage and through the cursor
+    dspec = dedup_keys(spec)
+    for w in sorted(rng.sample(range(1, 9), 3)):
+        cases.append(('agg', [['sort', dspec], ['limit', w]]))
+        x = rng.random()
+        if x < 0.4:
+            cases.append(('find', filt, spec, 0, w, [], None))
+        elif x < 0.7:
+            cases.append(('find', filt, None, 0, 0, [['sortl', spec], ['limit', w]], None))
+        else:
+            cases.append(('find', filt, spec, 0, 0, [['slice', None, w]], None))
+    # other sorts: windows anywhere, pipelines, call sequences, a single document by index
+    for _ in range(2):
+        cases.append(('agg', g.stages(n, profile)))
+    spec2 = g.plain_sort(profile)
+    cases.append(('find', filt, spec2, g.num(n), g.small(n), [], None))
+    ops = [g.cursor_op(n, profile) for _ in range(rng.choice([1, 2, 3]))]
+    cases.append(('find', filt, g.sort_spec(profile), g.num(n, 0.03), g.num(n, 0.25), ops,
+                  None if rng.random() < 0.7 else g.num(n)))
+    return {'docs': docs, 'oids': g.oids, 'profile': profile, 'cases': cases, 'big': True}
+
+
+def window_shape(n_docs, case):
+    """for the coverage record: 'stage' / 'cursor' + how large the first window taken right after
+    a sort is against the number of documents ('<=1/4', '<=1/2', 'more'); None = no such window"""
+    if case[0] == 'agg':
+        st = case[1]
+        for i, x in enumerate(st[:-1]):
+            if x[0] == 'sort' and st[i + 1][0] == 'limit' and st[i + 1][1] > 0:
+                w, where = st[i + 1][1], 'stage'
+                break
+        else:
+            return None
+    elif case[0] == 'find':
+        try:
+            sort, skip, lim = o_settings(case[2], case[3], case[4], case[5])
+        except (ValueError, IndexError):
+            return None
+        if not sort or lim is None or skip:
+            return None
+        w, where = lim, 'cursor'
+    else:
+        return None
+    return '%s %s' % (where, '<=1/4' if 4 * w <= n_docs else '<=1/2' if 2 * w <= n_docs
+                      else 'more')
 
 
 def gen_history(rng):
@@ -1432,6 +1589,32 @@ def run(ctx, proof, driver_ok):
         enc = [sc for sc in scs if wide_encodable(sc)]
         wmodel += len(enc)
         run_scenarios(ctx, enc, judge, stats)
+    # larger collections full of ties, small windows: through the model and the python oracle
+    # (values of the model's universe) and through the every-kind order oracle
+    nb = ctx.n(450, 7000)
+    nbw = ctx.n(150, 2500)
+    brng = random.Random(ctx.seed * 1000003 + 3333)
+    big = {'scenarios': 0, 'scenarios_every_kind': 0, 'every_kind_also_through_the_model': 0,
+           'cases': 0, 'sizes': collections.Counter(), 'windows': collections.Counter()}
+    bdone = 0
+    while bdone < nb + nbw and not ctx.too_many():
+        wide = bdone >= nb
+        k = min(150, (nb + nbw if wide else nb) - bdone)
+        scs = [gen_big_scenario(brng, BWG if wide else BG) for _ in range(k)]
+        bdone += k
+        for sc in scs:
+            big['scenarios_every_kind' if wide else 'scenarios'] += 1
+            big['cases'] += len(sc['cases'])
+            big['sizes'][len(sc['docs'])] += 1
+            for c in sc['cases']:
+                ws = window_shape(len(sc['docs']), c)
+                if ws:
+                    big['windows'][ws] += 1
+        if wide:
+            run_wide(ctx, scs, wj)
+            scs = [sc for sc in scs if wide_encodable(sc)]
+            big['every_kind_also_through_the_model'] += len(scs)
+        run_scenarios(ctx, scs, judge, stats)
     if judge.internal:
         raise RuntimeError('model and oracle differ inside D (contradicts the theorems): %r'
                            % judge.internal[:2])
@@ -1453,6 +1636,17 @@ def run(ctx, proof, driver_ok):
         'profile_histogram': dict(profiles),
         'first_key_type_classes_histogram': dict(sorted(stats['first_key_classes'].items())),
         'sort_key_count_histogram': dict(sorted(stats['sort_keys'].items())),
+        'many_ties_collections': {
+            'what': 'collections of 8-40 documents with 1-4 distinct values per field; the '
+                    'leading window of every small size right after a sort ($sort + $limit, '
+                    'sort().limit(), slices), windows anywhere, pipelines with several sorts and '
+                    'cuts; judged like every other case (model, python oracle, every-kind oracle)',
+            'scenarios': big['scenarios'], 'scenarios_every_kind': big['scenarios_every_kind'],
+            'every_kind_also_through_the_model': big['every_kind_also_through_the_model'],
+            'cases': big['cases'],
+            'collection_size_histogram': {str(k): v for k, v in sorted(big['sizes'].items())},
+            'first_window_after_a_sort_histogram': dict(sorted(big['windows'].items())),
+        },
         'every_kind_order_oracle': {
             'what': 'python-only: find().sort / sorted cursor with skip, limit, slices / $sort '
                     'over sort keys drawn from every kind of value bson_compare orders, against '
